@@ -36,8 +36,9 @@ def _truth(x):
     return True if x else False
 
 
-def _mk(nops, nonneg, tiers, timeout):
-    @symx("C12-history-%dops-%s" % (nops, "nonneg" if nonneg else "anysign"), tiers=tiers, timeout=timeout, kind="S",
+def _mk(nops, nonneg, tiers, timeout, first=None):
+    @symx("C12-history-%dops-%s%s" % (nops, "nonneg" if nonneg else "anysign", "" if first is None else "-first%d" % first),
+          tiers=tiers, timeout=timeout, kind="S",
           functions=F_P, stubs=STUBS, opts={"query_timeout_ms": 120000},
           bounds="two tasks (one started, one added with start=False); every sequence of %d operations, kind and target task "
                  "solver-enumerated from {advance, update(completed), update(total), update(advance), reset(total?,completed), "
@@ -54,7 +55,7 @@ def _mk(nops, nonneg, tiers, timeout):
         ref = {ids[0]: 0, ids[1]: 0}           # reference completed count
         ok = True
         for step in range(nops):
-            kind = int(e.mk("op%d" % step, 0, 6))
+            kind = first if (first is not None and step == 0) else int(e.mk("op%d" % step, 0, 6))
             tid = ids[int(e.mk("task%d" % step, 0, 1))]
             task = p._tasks[tid]
             was_finished = task.finished_time is not None
@@ -131,8 +132,9 @@ def _mk(nops, nonneg, tiers, timeout):
 
 _mk(2, True, ("quick", "thorough"), 600)
 _mk(2, False, ("quick", "thorough"), 600)
-_mk(3, True, ("thorough",), 3000)
-_mk(3, False, ("thorough",), 3000)
+for _f in range(7):
+    _mk(3, True, ("thorough",), 3400, first=_f)
+    _mk(3, False, ("thorough",), 3400, first=_f)
 
 
 @symx("C12-track", timeout=300, kind="P", functions=["rich/progress.py:Progress.track", "rich/progress.py:Progress.advance"],
